@@ -41,3 +41,29 @@ def run_parallel(ctx, mod_name, total, chunk=300, workers=8):
             if len(ctx.failures) >= 3:
                 pool.terminate()
                 break
+
+
+class CaseTimeout(BaseException):
+    """a case ran longer than its budget (raised from SIGALRM inside the running code)"""
+
+
+class watchdog:
+    """with watchdog(20): ...   raises CaseTimeout in the main thread after that many wall seconds (no hang, ever)"""
+
+    def __init__(self, seconds):
+        self.seconds = seconds
+
+    def __enter__(self):
+        import signal
+
+        def on_alarm(signum, frame):
+            raise CaseTimeout("case exceeded %s s" % self.seconds)
+        self.old = signal.signal(signal.SIGALRM, on_alarm)
+        signal.setitimer(signal.ITIMER_REAL, self.seconds)
+        return self
+
+    def __exit__(self, *a):
+        import signal
+        signal.setitimer(signal.ITIMER_REAL, 0)
+        signal.signal(signal.SIGALRM, self.old)
+        return False
